@@ -359,12 +359,20 @@ func fault(t *rapid.T, c *Case) {
 		c.Integrity = rapid.SampledFrom([]string{"other", "junk", "other-complete", "other-complete"}).Draw(t, "integrity")
 	case "res-banned":
 		name := randCase(rapid.SampledFrom(uncached).Draw(t, "banned"), t, "bcase")
-		kv := gen.HeaderKV{Name: name, Values: []string{rapid.SampledFrom([]string{"x", "a=b", "close"}).Draw(t, "bval")}}
+		// Raw: the map key is exactly this spelling (a header map filled by direct assignment, or read
+		// from another parser), not Go's canonical form
+		kv := gen.HeaderKV{Name: name, Values: []string{rapid.SampledFrom([]string{"x", "a=b", "close"}).Draw(t, "bval")}, Raw: rapid.Bool().Draw(t, "braw")}
+		if rapid.IntRange(0, 2).Draw(t, "bfill") == 0 {
+			// among many harmless fields (more than there are banned names)
+			for i, n := 0, rapid.SampledFrom([]int{17, 18, 19, 20, 21, 40}).Draw(t, "bnfill"); i < n; i++ {
+				c.ResHeaders = append(c.ResHeaders, gen.HeaderKV{Name: fmt.Sprintf("X-Fill-%d", i), Values: []string{"f"}})
+			}
+		}
 		pos := rapid.IntRange(0, len(c.ResHeaders)).Draw(t, "bpos")
 		c.ResHeaders = append(c.ResHeaders[:pos:pos], append([]gen.HeaderKV{kv}, c.ResHeaders[pos:]...)...)
 	case "req-banned":
 		name := randCase(rapid.SampledFrom(statefulReq).Draw(t, "sbanned"), t, "scase")
-		c.ReqHeaders = append(c.ReqHeaders, gen.HeaderKV{Name: name, Values: []string{"secret"}})
+		c.ReqHeaders = append(c.ReqHeaders, gen.HeaderKV{Name: name, Values: []string{"secret"}, Raw: rapid.Bool().Draw(t, "sraw")})
 	case "method":
 		c.Method = rapid.SampledFrom([]string{"POST", "PUT", "get", "DELETE", "OPTIONS", ""}).Draw(t, "badmethod")
 	case "no-ct":
@@ -444,14 +452,30 @@ func TestGrid(t *testing.T) {
 		}
 		for _, h := range uncached {
 			for _, nm := range []string{h, strings.ToLower(h), strings.ToUpper(h)} {
-				ok = ok && try(func(c *Case) {
-					c.ResHeaders = []gen.HeaderKV{{Name: "X-A", Values: []string{"1"}}, {Name: nm, Values: []string{"v"}}}
-				})
+				for _, raw := range []bool{false, true} {
+					for _, nfill := range []int{0, 18, 19, 20, 30} {
+						ok = ok && try(func(c *Case) {
+							c.ResHeaders = []gen.HeaderKV{{Name: "X-A", Values: []string{"1"}}, {Name: nm, Values: []string{"v"}, Raw: raw}}
+							for i := 0; i < nfill; i++ {
+								c.ResHeaders = append(c.ResHeaders, gen.HeaderKV{Name: fmt.Sprintf("X-Fill-%d", i), Values: []string{"f"}})
+							}
+						})
+					}
+				}
 			}
 		}
 		for _, h := range statefulReq {
 			for _, nm := range []string{h, strings.ToLower(h), strings.ToUpper(h)} {
-				ok = ok && try(func(c *Case) { c.ReqHeaders = []gen.HeaderKV{{Name: nm, Values: []string{"v"}}} })
+				for _, raw := range []bool{false, true} {
+					for _, nfill := range []int{0, 4, 5, 6, 20} {
+						ok = ok && try(func(c *Case) {
+							c.ReqHeaders = []gen.HeaderKV{{Name: nm, Values: []string{"v"}, Raw: raw}}
+							for i := 0; i < nfill; i++ {
+								c.ReqHeaders = append(c.ReqHeaders, gen.HeaderKV{Name: fmt.Sprintf("X-Fill-%d", i), Values: []string{"f"}})
+							}
+						})
+					}
+				}
 			}
 		}
 		// response headers that merely look similar must not be refused
